@@ -158,7 +158,8 @@ MALFORMED = ["ts_equal", "ts_decreasing", "ts_strings", "ts_single_repeat", "y0_
              "g_state_mismatch", "g_batch_mismatch", "g_wrong_rank", "scalar_many_channels", "missing_f", "missing_g",
              "missing_both", "ts_requires_grad", "dt_requires_grad", "rtol_requires_grad", "atol_requires_grad",
              "dt_min_requires_grad", "no_noise_type", "no_sde_type", "bad_noise_type", "bad_sde_type", "unknown_method",
-             "g_prod_without_bm", "ts_collapse_in_dtype", "scalar_many_channels_bm"]
+             "g_prod_without_bm", "ts_collapse_in_dtype", "scalar_many_channels_bm", "names_missing_drift",
+             "names_missing_diffusion"]
 
 
 def _malformed_cells():
@@ -464,6 +465,11 @@ def _run_malformed(case):
         if cls != "no_sde_type":
             b.sde_type = "banana" if cls == "bad_sde_type" else sde.sde_type
         sde = b
+    elif cls in ("names_missing_drift", "names_missing_diffusion"):
+        # `names` designates a method the SDE does not have (a typo), while the SDE also has the standard-named f and g:
+        # the designated drift / diffusion is missing, the standard one was not designated
+        key = "drift" if cls == "names_missing_drift" else "diffusion"
+        kw["names"] = {key: ["no_such_method", "F", "drift_fn"][v % 3]}
     elif cls == "unknown_method":
         kw["method"] = ["rk4", "Euler", "", "milstein2", "adjoint"][v % 5]
     elif cls == "g_prod_without_bm":
